@@ -222,10 +222,11 @@ def instances(typ: str, tier: str = "quick") -> Iterator[Instance]:
     elif typ == "gcc":
         yield from _gcc_instances(tier)
     elif typ == "lexicographic_leq":
-        for n in (1, 2, 3) if th else (1, 2):
+        for n in (1, 2, 3):
             yield 2 * n, (), ((-1, 1),) * (2 * n)
         if th:
-            yield 4, (), ((0, 2),) * 4
+            yield 4, (), ((0, 3),) * 4
+            yield 8, (), ((0, 1),) * 8
     elif typ in ("max_eq", "min_eq", "max_leq", "min_geq"):
         for k in (1, 2, 3):
             yield k + 1, (), ((-1, 2),) * (k + 1)
